@@ -823,17 +823,22 @@ func countedLoop(info *types.Info, fs *ast.ForStmt) bool {
 	if !ok {
 		return false
 	}
-	be, ok := ast.Unparen(fs.Cond).(*ast.BinaryExpr)
-	if !ok {
-		return false
+	// one conjunct bounds the counter; further conjuncts only end the loop earlier
+	for _, cj := range conj(fs.Cond) {
+		be, ok := ast.Unparen(cj).(*ast.BinaryExpr)
+		if !ok {
+			continue
+		}
+		switch be.Op {
+		case token.LSS, token.LEQ, token.GTR, token.GEQ:
+		default:
+			continue
+		}
+		if x, ok := ast.Unparen(be.X).(*ast.Ident); ok && info.Uses[x] == info.Uses[id] {
+			return true
+		}
 	}
-	switch be.Op {
-	case token.LSS, token.LEQ, token.GTR, token.GEQ:
-	default:
-		return false
-	}
-	x, ok := ast.Unparen(be.X).(*ast.Ident)
-	return ok && info.Uses[x] == info.Uses[id]
+	return false
 }
 
 type atom struct {
